@@ -218,6 +218,20 @@ def ipow(a: Node, k: int) -> Node:
     return r
 
 
+def _iroot(n: int, q: int) -> int:
+    """integer part of the q-th root of a non-negative integer (exact integer arithmetic: no float overflow)"""
+    if n < 2:
+        return n
+    if q == 2:
+        return math.isqrt(n)
+    x = 1 << -(-n.bit_length() // q)
+    while True:
+        y = ((q - 1) * x + n // x ** (q - 1)) // q
+        if y >= x:
+            return x
+        x = y
+
+
 def root(a: Node, q: int) -> Node:
     if q == 1:
         return a
@@ -226,7 +240,7 @@ def root(a: Node, q: int) -> Node:
         if v >= 0:
             # exact rational roots only
             n, d = v.numerator, v.denominator
-            rn, rd = round(n ** (1.0 / q)), round(d ** (1.0 / q))
+            rn, rd = _iroot(n, q), _iroot(d, q)
             if rn**q == n and rd**q == d:
                 return const(Fraction(rn, rd))
     if q % 2 == 1 and a.op == "/":
